@@ -465,6 +465,22 @@ func (*Ufs) Read(req *SrvReq) {
 			}
 		}
 
+		if tc.Offset > uint64(len(fid.dirents)) {
+			/* past the end of the listing: nothing to read */
+			SetRreadCount(rc, 0)
+			req.Respond()
+			return
+		}
+
+		if tc.Offset != 0 {
+			/* a directory can only be read from the start of an entry */
+			i := sort.SearchInts(fid.direntends, int(tc.Offset))
+			if i >= len(fid.direntends) || fid.direntends[i] != int(tc.Offset) {
+				req.RespondError(Ebadoffset)
+				return
+			}
+		}
+
 		switch {
 		case tc.Offset > uint64(len(fid.dirents)):
 			count = 0
